@@ -11,7 +11,7 @@
 From EsVerif.Common Require Import Base Bytes.
 From Coq.Strings Require Import Byte.
 From Coq.Strings Require String.
-From EsVerif.C07 Require Import Model Spec Basics Proofs CmpProofs Extra Skel Gen Tie Complete State Total Verbose Swap.
+From EsVerif.C07 Require Import Model Spec Basics Proofs CmpProofs Extra Skel Gen Tie Complete State Total Verbose Swap Py GenCode TieCode.
 
 (* extract_fields: original order filtered by the given names; Err on a missing name in strict
    mode or when no field would be kept *)
@@ -294,6 +294,11 @@ Theorem C07_copy_swapped_checker_sound :
   /\ (forall a1 a2, compat_sw_b a1 a2 = true -> compat_sw a1 a2).
 Proof. exact (conj copy_check_sw_sound compat_sw_dec). Qed.
 
+(* ... and complete: with C07_copy_swapped_checker_sound the checker of the converting copy decides copy_ok_sw *)
+Theorem C07_copy_swapped_checker_complete : forall a1 a2 out,
+  NoDup (names a2) -> (exists r, out = Ok r /\ copy_ok_sw a1 a2 r) -> copy_check_sw a1 a2 out = true.
+Proof. exact copy_check_sw_complete. Qed.
+
 (* compare_arrays with verbose=True modelled including every stdout.write (the report as a list
    of events): the verdict does not depend on verbose and is Model.compare_arrays; verbose=False
    writes nothing; a report ends in "All tests passed" exactly when the answer is True, else in
@@ -329,6 +334,18 @@ Theorem C07_source_parameters :
                     = copy_fields_by_name a n v)
   /\ (forall a flds, split_names_g split_forms a flds = Some (split_names a flds)).
 Proof. exact source_parameters. Qed.
+
+(* Statement-level tie.  GenCode.v is the statement-by-statement translation of the CURRENT source
+   of copy_fields, copy_fields_by_name, extract_fields, remove_fields and combine_fields (python ast -> Gallina over
+   the combinators of Py.v, regenerated on every run, fail-closed): the functions of Model.v about
+   which everything above is proved ARE these translations. *)
+Theorem C07_code_is_model :
+  (forall a1 a2, NoDup (names a1) -> gen_copy_fields a1 a2 = copy_fields a1 a2)
+  /\ (forall a nms vals, gen_copy_fields_by_name a nms vals = copy_fields_by_name a nms vals)
+  /\ (forall a k s, NoDup (names a) -> gen_extract_fields a k s = extract_fields a k s)
+  /\ (forall a k, NoDup (names a) -> gen_remove_fields a k = remove_fields a k)
+  /\ (forall arrs, (forall a, In a arrs -> NoDup (names a)) -> gen_combine_fields arrs = combine_fields arrs).
+Proof. exact code_is_model. Qed.
 
 (* every output array is created by np.zeros (new fields start zero-filled) with the input's shape *)
 Theorem C07_source_allocation :
@@ -479,4 +496,19 @@ Proof.
     - exists 1%nat. reflexivity. - exists 1%nat. reflexivity.
     - exists 2%nat. reflexivity. - exists 2%nat. reflexivity. }
   vm_compute. reflexivity.
+Qed.
+
+(* the translated code computes on concrete arrays (and agrees with the model there) *)
+Example C07_code_is_model_nonvacuous :
+  (forall a, In a [ex_a; ex_b] -> NoDup (names a))
+  /\ option_map names (match gen_combine_fields [ex_a; ex_b] with Ok r => Some r | Err _ => None end)
+     = Some ["x"; "v"; "s"; "k"]
+  /\ option_map names (match gen_extract_fields ex_a (NTuple ["s"; "x"]) true with Ok r => Some r | Err _ => None end)
+     = Some ["x"; "s"]
+  /\ gen_remove_fields ex_a (NList ["s"; "v"; "x"]) = Err EValue
+  /\ gen_copy_fields ex_a ex_c = copy_fields ex_a ex_c.
+Proof.
+  split.
+  { intros a [<-|[<-|[]]]; apply nodup_b_NoDup; vm_compute; reflexivity. }
+  repeat split; vm_compute; reflexivity.
 Qed.
